@@ -12,7 +12,7 @@ def plan(tier):
                                desc={'threads': list(progs), 'then': 'checker thread: lockWrite/unlockWrite/lockRead x2/unlockRead x2 must not park', 'symbolic': 'the schedule (%d thread choices)' % K,
                                      'spurious_wakeups': 'off (a correct lock must not depend on them)'}))
     # (b) three (thorough: four) workers, deadlock / lost wake-up detector; the first schedule choice is a cube
-    sets = [(3, 1, 22)] if tier == 'quick' else [(3, 1, 22), (4, 1, 30)]
+    sets = [(3, 1, 22)] if tier == 'quick' else [(3, 1, 22)]
     for n, pairs, K in sets:
         for progs in multisets(n, pairs):
             if tier == 'quick' and 'W' not in progs:
@@ -20,19 +20,30 @@ def plan(tier):
             for t0 in range(n):
                 qs.append(ResQuery('live_%s_first%d' % ('_'.join(progs), t0), progs, cbmc_defs=['VF_LIVENESS=1'], K=K, prefix=[t0], timeout=1500 if tier == 'quick' else 3000,
                                    desc={'threads': list(progs), 'first_scheduled_thread': t0, 'symbolic': 'the remaining %d schedule choices' % (K - 1), 'spurious_wakeups': 'off'}))
+    # (b2) contention, fully idle, contention again on the same Resource (ticket bookkeeping across idle periods)
+    qs.append(ResQuery('reuse_WWW_WW', ('WWW', 'WW'), cbmc_defs=['VF_LIVENESS=1'], K=40, timeout=2400,
+                       desc={'threads': ['WWW', 'WW'], 'symbolic': 'the schedule (40 thread choices)', 'note': 'covers histories in which the Resource becomes idle between two contended periods'}))
     # (c) a request arriving between the admission of a queued batch and the resumption of its threads: one thread issues a second request
-    for progs, K in ([(('WR', 'R', 'R'), 30)] if tier == 'quick' else [(('WR', 'R', 'R'), 30), (('WW', 'R', 'R'), 30), (('RW', 'R', 'W'), 30)]):
-        for t0 in range(len(progs)):
-            qs.append(ResQuery('late_arrival_%s_first%d' % ('_'.join(progs), t0), progs, cbmc_defs=['VF_LIVENESS=1'], K=K, prefix=[t0], timeout=2400 if tier == 'quick' else 3600,
+    if tier == 'quick':
+        # quick: every schedule PREFIX of 20 steps is free of deadlock states (the schedules are not required to complete within the bound)
+        progs, K = ('WR', 'R', 'R'), 20
+        for t0 in range(3):
+            qs.append(ResQuery('late_arrival_%s_first%d' % ('_'.join(progs), t0), progs, cbmc_defs=['VF_LIVENESS=1', 'VF_PREFIX_ONLY=1'], K=K, prefix=[t0], timeout=2400, expect_reach=[],
                                desc={'threads': list(progs), 'first_scheduled_thread': t0, 'symbolic': 'the remaining %d schedule choices' % (K - 1), 'spurious_wakeups': 'off',
-                                     'note': 'covers requests that arrive while admitted waiters have not resumed yet'}))
+                                     'note': 'prefix exploration: covers requests that arrive while admitted waiters have not resumed yet; completion within the bound is checked in the thorough tier'}))
+    else:
+        for progs, K in [(('WR', 'R', 'R'), 30), (('WW', 'R', 'R'), 30), (('RW', 'R', 'W'), 30)]:
+            for t0 in range(len(progs)):
+                qs.append(ResQuery('late_arrival_%s_first%d' % ('_'.join(progs), t0), progs, cbmc_defs=['VF_LIVENESS=1'], K=K, prefix=[t0], timeout=3600,
+                                   desc={'threads': list(progs), 'first_scheduled_thread': t0, 'symbolic': 'the remaining %d schedule choices' % (K - 1), 'spurious_wakeups': 'off',
+                                         'note': 'covers requests that arrive while admitted waiters have not resumed yet'}))
     return qs
 
 
 def run(tier, seed):
     ck = ResCheck('C02', tier, seed)
     qs = plan(tier)
-    ck.bounds = {'threads': '2 workers x 1 pair + idle checker; 3 workers x 1 pair' if tier == 'quick' else '2 workers x <=2 pairs + idle checker; 3..4 workers x 1 pair',
+    ck.bounds = {'threads': '2 workers x 1 pair + idle checker; 3 workers x 1 pair' if tier == 'quick' else '2 workers x <=2 pairs + idle checker; 3 workers x 1 pair',
                  'schedule length': 'K steps per query, asserted sufficient (BOUND assertion: every thread finishes within K)', 'outside': 'more threads / longer programs; weak memory'}
     ck.assumptions = COMMON_ASSUME + ['spurious wake-ups disabled: liveness must not depend on them', 'critical sections do not wait for anything else (one scheduling point inside)']
     ck.collect_functions([H, os.path.join(ck.ws.prepare_repo(), 'src/threading/rwp/Resource.cpp')], ['NW=2', 'P0=5', 'P1=1'])
